@@ -3,6 +3,7 @@ C02 — preservation of the binary-linking invariant `InvBl` by the commit state
 the link to the histories of C01 (`inv_hist`).
 -/
 import ImmuModel.Store.CommitInv
+import ImmuModel.Store.CommitWrite
 import ImmuModel.Merkle.Proofs.Roots
 
 namespace ImmuModel.Store.Commit
@@ -472,25 +473,19 @@ theorem bl_blRootFor_spec {hs : Hs D} {z : D} {s : St D} {n : Nat} {r : D} {l : 
 theorem bl_performPrecommit_invBl {hs : Hs D} {z : D} {s : St D} (hL : InvLog hs s)
     (hB : InvBl hs s) (hclosed : s.closed = false) (tx : TxIn D) (ts bl : Nat) :
     InvBl hs (performPrecommit hs z s tx ts bl).1 := by
-  have hlen : (s.log.take s.logEnd).length = s.logEnd := by
-    have := hL.logEnd_le
-    simp; omega
-  have hlog0 : ∀ (ex : List (Rec D)) i, i < s.logEnd →
-      (s.log.take s.logEnd ++ ex)[i]? = s.log[i]? := by
-    intro ex i hi
-    rw [List.getElem?_append_left (by omega), List.getElem?_take, if_pos hi]
+  have hlog0 : ∀ (r : Rec D) i, i < s.logEnd →
+      (writeRec s.cfg.embedded s.log s.logEnd r)[i]? = s.log[i]? := by
+    intro r i hi
+    exact writeRec_get_lt _ _ _ hi hL.logEnd_le
   have hncl : ¬ s.closed = true := by simp [hclosed]
-  have hfail : ∀ ex, InvBl hs { s with log := s.log.take s.logEnd ++ ex } := fun ex =>
-    bl_invBl_transfer hL hB (hlog0 ex) rfl rfl (List.prefix_refl _) hB.ahtLive hB.ahtDur
-      hB.ahtClosed hB.ahtPLen
-  have hfail0 : InvBl hs { s with log := s.log.take s.logEnd } := by simpa using hfail []
+  have hfail0 : InvBl hs s := hB
   obtain ⟨extra, hall⟩ := hB.ahtLive
   have hpre := bl_liveAlhs_length hL
   unfold performPrecommit
   simp only
   split
   · exact hB
-  · cases hbr : blRootFor z { s with log := s.log.take s.logEnd } bl with
+  · cases hbr : blRootFor z s bl with
     | error e => exact hfail0
     | ok blRoot =>
       simp only
@@ -502,7 +497,7 @@ theorem bl_performPrecommit_invBl {hs : Hs D} {z : D} {s : St D} (hL : InvLog hs
           have hroot : 0 < bl →
               blRoot = mth hs.mh (treeLeaves hs ((liveAlhs s).take bl)) := by
             intro h0
-            rcases bl_blRootFor_spec (s := { s with log := s.log.take s.logEnd }) hall hbr
+            rcases bl_blRootFor_spec (s := s) hall hbr
               with h | h | ⟨h1, h2⟩
             · omega
             · have := congrArg List.length h
@@ -510,7 +505,8 @@ theorem bl_performPrecommit_invBl {hs : Hs D} {z : D} {s : St D} (hL : InvLog hs
               omega
             · rw [h2, List.take_append_of_le_length (by omega)]
           split
-          · exact hfail _
+          · exact bl_invBl_transfer hL hB (hlog0 _) rfl rfl (List.prefix_refl _) hB.ahtLive hB.ahtDur
+              hB.ahtClosed hB.ahtPLen
           · rename_i s2 hr
             obtain ⟨t2, p, b, hs2, hm, ht2, hd, hl⟩ := bl_ahtReset_spec hs hr
             have hlive2 : AhtOf hs (liveAlhs s) t2 := by
@@ -531,7 +527,8 @@ theorem bl_performPrecommit_invBl {hs : Hs D} {z : D} {s : St D} (hL : InvLog hs
               have hl3 := hl' (bl_ahtOf_len hlive3) hl2
               subst hs3
               simp only
-              have hpush : ∀ (s' : St D) (r : Rec D), s'.log = s.log.take s.logEnd ++ [r] →
+              have hpush : ∀ (s' : St D) (r : Rec D),
+                  s'.log = writeRec s.cfg.embedded s.log s.logEnd r →
                   r.hdr.blTxID = bl → r.hdr.blRoot = blRoot → s'.clog = s.clog →
                   s'.committed = s.committed → s'.buf = s.buf ++ [⟨s.preID + 1, a, s.logEnd⟩] →
                   s'.aht = t3 → s'.ahtP = p' → s'.ahtBuf = b' → s'.closed = s.closed →
@@ -539,7 +536,7 @@ theorem bl_performPrecommit_invBl {hs : Hs D} {z : D} {s : St D} (hL : InvLog hs
                 intro s' r h1 h2 h3 h4 h5 h6 h7 h8 h9 h10
                 refine bl_invBl_push hL hB (r := r) ?_ ?_ h4 h5 h6 (by omega) ?_ ?_ ?_ ?_ ?_
                 · rw [h1]; exact hlog0 _
-                · rw [h1, List.getElem?_append_right (by omega), hlen]; simp
+                · rw [h1]; exact writeRec_get_self _ _ _ hL.logEnd_le
                 · rw [h2, h3]; exact hroot
                 · rw [h7]; exact hlive3
                 · rw [h7, h8, h9]; exact hd'
